@@ -6,7 +6,10 @@ from core import Case, IMPL_PY, impl_env
 IMPL_MODULE = "lic_impl"
 RULE = ("expressions drawn from the SPDX grammar over the bundled tables (random case, Unicode whitespace layout, redundant parentheses, '+', "
         "WITH, LicenseRef-), token-level damage (missing/extra operands, operators, parentheses, '+', WITH placement), character-level "
-        "mutations incl. case-fold confusables, nesting depths around CPython's parser limits, bounded-exhaustive sweeps (every token "
+        "mutations incl. case-fold confusables, valid expressions with one arbitrary code point (any of U+0000..U+10FFFF, lone surrogates "
+        "included) inserted anywhere, long flat expressions, whitespace-only strings, the Python reading of the property compared directly with "
+        "the Coq specification (l.spec), nesting depths around CPython's parser limits with the exact first rejected depth pinned for six "
+        "shapes, bounded-exhaustive sweeps (every token "
         "sequence up to a length bound over {MIT,or,AND,(,)} and over {MIT,or,AND,(,),WITH,389-exception}; every string up to a length "
         "bound over a 9-character alphabet), each sweep chunk counted as one case; non-trivial = accepted; distinct by input text")
 ASSUMPTIONS = [
@@ -18,6 +21,13 @@ ASSUMPTIONS = [
     "the reading of the property used by the direct law check takes 'any letter case' as ASCII case (a token spelled with U+212A KELVIN "
     "SIGN or any other non-ASCII character is no identifier; the code rejects it since fix 9992710)",
     "whether 'LicenseRef-x+' is well-formed is not fixed by the property text: both readings are allowed",
+    "an EMPTY LicenseRef idstring ('LicenseRef-', 'licenseref-+') is accepted by the code and by LicSpec.lic_canon although SPDX Annex D "
+    "has idstring = 1*(...): the property text does not demand non-emptiness; C19_simple_ids_vs_spdx_proper states exactly this "
+    "difference (judgement call D37: law.l.strictref / match_ref_empty are scheduled only once known_findings.txt registers it)",
+    "'GPL-2.0++' is license-id '+' with the deprecated table id 'GPL-2.0+': well-formed in SPDX proper, accepted",
+    "the argument is a str (an int raises AttributeError, bytes TypeError: outside the domain); every str, lone surrogates included, is inside",
+    "first rejected nesting depth per shape (law.l.evaldepth) is recorded for CPython 3.12 only; on another interpreter the law checks "
+    "agreement of the function with eval() on its skeleton, monotonicity and the band 101..201",
 ]
 TRUSTED_EXTRA = [
     "CPython eval()/compile() on the skeleton string: modelled as an automaton, validated exhaustively against the real function over all "
@@ -118,6 +128,58 @@ def mutate(rng, s):
             j = min(i, len(s) - 2); s[j], s[j + 1] = s[j + 1], s[j]
         elif s: s[min(i, len(s) - 1)] = rng.choice(MUT_CH)
     return "".join(s)
+
+
+def valid_simple(rng):
+    lic, exc = tables()
+    k = rng.random()
+    if k < 0.2: t = rref(rng, rng.choice(REFS))
+    elif k < 0.6: t = rcase(rng, rng.choice(SHORT))
+    else: t = rcase(rng, rng.choice(lic))
+    if rng.random() < 0.2: t += "+"
+    if rng.random() < 0.25: t += rng.choice(WS_IN) + rcase(rng, "WITH") + rng.choice(WS_IN) + rcase(rng, rng.choice(exc))
+    return t
+
+
+def valid_expr(rng, depth=0, maxd=3):
+    """Always well-formed (every identifier known)."""
+    k = rng.random()
+    if depth >= maxd or k < 0.4: return valid_simple(rng)
+    if k < 0.62:
+        return rng.choice(["(", "( ", " (", "(\n"]) + valid_expr(rng, depth + 1, maxd) + rng.choice([")", " )", ") ", "\t)"])
+    op = rcase(rng, rng.choice(["AND", "OR"]))
+    return valid_expr(rng, depth + 1, maxd) + rng.choice(WS_IN) + op + rng.choice(WS_IN) + valid_expr(rng, depth + 1, maxd)
+
+
+def any_codepoint(rng):
+    """One code point: mostly uniform over everything CPython's str can hold (lone surrogates included)."""
+    k = rng.random()
+    if k < 0.30: return chr(rng.randrange(0x110000))
+    if k < 0.55: return chr(rng.randrange(0x10000))
+    if k < 0.65: return chr(rng.randrange(0xD800, 0xE000))
+    if k < 0.85: return chr(rng.choice(gen_lic.WS))
+    if k < 0.95: return chr(rng.randrange(0x100))
+    return rng.choice(["\u0130", "\u0131", "\u212a", "\u017f", "\u03a3", "\u1e9e", "\ufb01", "\u2028", "\u200b", "\ufeff", "\u180e", "\x00"])
+
+
+def with_codepoint(rng):
+    s = valid_expr(rng, 0, rng.choice([0, 1, 2, 3]))
+    i = rng.randrange(len(s) + 1)
+    return s[:i] + any_codepoint(rng) + s[i:]
+
+
+def flat(rng, n):
+    """n operands, no nesting."""
+    out = valid_simple(rng)
+    for _ in range(n - 1):
+        out += rng.choice([" ", "\n", "  "]) + rng.choice(["AND", "or", "Or", "and"]) + " " + (rng.choice(SHORT) if rng.random() < 0.8 else valid_simple(rng))
+    return out
+
+
+FIXED2 = ["LicenseRef-a+b", "LicenseRef-a+b+", "licenseref-+a", "LicenseRef-a+ WITH llgpl", "LicenseRef-.", "LicenseRef--", "LICENSEREF-", "licenseref-+", "LicenseRef-++",
+          "(LicenseRef-)", "MIT WITH LicenseRef-", "LicenseRef- WITH llgpl", "LicenseRef-\n", "LicenseRef-a\x0b", "\ud800", "MIT OR \udfff", "\ud83d\ude00", "MIT\ud800", "M\udc00IT",
+          "MIT\x1cOR\x85gd", "MIT AND\u200bgd", "\ufeffMIT", "\uff2dIT", "\U0001d40cIT", "MIT \U0001f600", "\u2028", "\u3000\u2003\x1f", "\u3000MIT\u2003", "\u180eMIT", "MIT\x00",
+          "GPL-2.0++ WITH llgpl", "gpl-2.0+ OR gpl-2.0++", "MIT\u0130", "mit or\u2029(gd)\u205f", "(", "((", "))", ")(", "MIT)", "(MIT", "( ( MIT )", "W\u0130TH", "mit w\u0131th llgpl"]
 
 
 def deep(rng, n):
@@ -221,7 +283,67 @@ def streams(rng, tier):
     out += sweep_cases("sweep7:all-token-seqs-len<=%d(%d)" % (n7, sum(7 ** i for i in range(n7 + 1))), " ", W7, n7, 2, "o")
     CH = ["g", "D", "+", "(", ")", " ", "o", "R", "\n"]
     out += sweep_cases("sweepchars:all-strings-len<=%d(%d)" % (nc, sum(9 ** i for i in range(nc + 1))), "", CH, nc, 2, "o")
+    # ---- round-5 additions (appended, so that the streams above see the same random sequence as before)
+    out.append(Case("probe-eval-depth-per-shape", "law.l.evaldepth", [], kind="law"))
+    for s in FIXED2:
+        out.append(Case("fixed2", "l.canon", [s])); out.append(Case("law-fixed2", "law.l.spec", [s], kind="law"))
+        out.append(Case("spec-vs-spec", "l.spec", [s]))
+    for s in FIXED: out.append(Case("spec-vs-spec", "l.spec", [s]))
+    # a valid expression with one arbitrary code point inserted: accepted iff the code point is whitespace (or, rarely, fits the grammar)
+    for _ in range(2500 if q else 60000):
+        s = with_codepoint(rng)
+        out.append(Case("codepoint", "l.canon", [s]))
+        k = rng.random()
+        if k < 0.3: out.append(Case("law-codepoint", "law.l.spec", [s], kind="law"))
+        elif k < 0.5: out.append(Case("spec-vs-spec", "l.spec", [s]))
+    # the Python reading of the property against the Coq specification, directly (neither side is the implementation)
+    for _ in range(1500 if q else 30000):
+        s = expr(rng, 0, rng.choice([1, 2, 3, 3, 4]))
+        k = rng.random()
+        if k < 0.25: s = damage(rng, s)
+        elif k < 0.4: s = mutate(rng, s)
+        out.append(Case("spec-vs-spec", "l.spec", [s]))
+    for n in [99, 100, 101, 150, 200, 201, 202]:
+        for _ in range(2): out.append(Case("spec-vs-spec", "l.spec", [deep(rng, n)]))
+    # long flat expressions (no nesting): no length limit anywhere
+    for n in ([40, 300, 1500] if q else [40, 300, 1500, 5000, 20000]):
+        s = flat(rng, n)
+        out.append(Case("flat", "l.canon", [s])); out.append(Case("law-flat", "law.l.spec", [s], kind="law"))
+        out.append(Case("flat", "l.canon", [s + " and"]))
+    # whitespace only, over all 29 separators
+    for _ in range(60 if q else 600):
+        s = "".join(chr(rng.choice(gen_lic.WS)) for _ in range(rng.choice([1, 1, 2, 3, 6])))
+        out.append(Case("ws-only", "l.canon", [s]))
+    for c in gen_lic.WS:
+        out.append(Case("ws-only", "l.canon", [chr(c)])); out.append(Case("ws-each", "l.canon", ["mit" + chr(c) + "or" + chr(c) + chr(c) + "(gd" + chr(c) + ")"]))
+    # arbitrary strings of tokens, separators and several arbitrary code points (non-BMP and lone surrogates included)
+    for _ in range(400 if q else 8000):
+        parts = []
+        for _ in range(rng.choice([1, 2, 3, 5, 8])):
+            k = rng.random()
+            if k < 0.45: parts.append(any_codepoint(rng))
+            elif k < 0.7: parts.append(rng.choice(["MIT", "gd", "or", "AND", "with", "(", ")", "+", "LicenseRef-", "llgpl", "LicenseRef-a"]))
+            else: parts.append(chr(rng.choice(gen_lic.WS)))
+        s = "".join(parts)
+        out.append(Case("arbitrary-codepoints", "l.canon", [s]))
+        if rng.random() < 0.3: out.append(Case("spec-vs-spec", "l.spec", [s]))
+    # judgement call D37 (empty LicenseRef idstring): active only once known_findings.txt registers the matcher
+    if _registered("match_ref_empty"):
+        for s in ["LicenseRef-", "licenseref-+", "MIT OR LICENSEREF-", "(LicenseRef-) AND gd", "LicenseRef- WITH llgpl", "LicenseRef-a", "LicenseRef-.", "MIT"]:
+            out.append(Case("law-strictref", "law.l.strictref", [s], kind="law"))
+        for _ in range(100 if q else 2000):
+            s = valid_expr(rng, 0, 2)
+            toks = tokenize(s); i = rng.randrange(len(toks))
+            if toks[i] not in "()" and toks[i].lower() not in ("and", "or", "with") and (i == 0 or toks[i - 1].lower() != "with"):
+                toks[i] = rref(rng, "LicenseRef-") + rng.choice(["", "", "+"])
+            out.append(Case("law-strictref", "law.l.strictref", [" ".join(toks)], kind="law"))
     return out
+
+
+def _registered(matcher):
+    import core
+    try: return any(f["matcher"] == matcher for f in core.load_findings("C19"))
+    except Exception: return False
 
 
 def compare(case, impl, model):
@@ -230,6 +352,8 @@ def compare(case, impl, model):
         # nesting depth 101..200: CPython may or may not run out of parser stack; either way only the documented exception / this value
         if impl == "E" or impl == "OK|" + model[2:]: return None
         return "implementation differs from model (depth 101..200: expected rejection or the model's value)"
+    if case.cmd == "l.spec":
+        return "the Python reading of the property (gen_lic.spec) and the Coq specification (LicSpec.spec_canon) differ"
     if case.cmd == "l.evalsweep":
         return "eval() and the automaton differ on the guard-passing skeletons with this prefix (impl %s..., model %s...)" % (impl[:40], model[:40])
     if case.cmd == "l.sweep":
@@ -242,6 +366,7 @@ def compare(case, impl, model):
 
 def nontrivial(case, impl):
     if case.kind == "law": return True
+    if case.cmd == "l.spec": return isinstance(impl, str) and impl.startswith("S|")
     if case.cmd == "l.sweep": return "1" in impl.split("|", 1)[0]
     if case.cmd == "l.evalsweep": return "1" in impl
     return isinstance(impl, str) and impl.startswith("OK|")
@@ -265,3 +390,11 @@ def match_deep(case, impl, model):
     r = _spec(case.args[0])
     if r is None or r[1] <= 100: return False
     return model == "E" if r[1] > 200 else (isinstance(model, str) and model == "L|" + r[0])
+
+
+def match_ref_empty(case, impl, model):
+    """Proposed known finding D37 (judgement call): a LicenseRef with an EMPTY idstring ('LicenseRef-', 'licenseref-+') is accepted, SPDX
+    Annex D has idstring = 1*(ALPHA / DIGIT / '-' / '.').  Instance = the strict law on an input that has such a token, and the law's own
+    message that the implementation returned a value for it."""
+    return (case.cmd == "law.l.strictref" and bool(gen_lic.empty_ref_tokens(case.args[0]))
+            and isinstance(impl, str) and impl.startswith("empty LicenseRef idstring accepted:"))
